@@ -125,6 +125,11 @@ pub fn exp_parts(x: &Mp) -> (Mp, i64) {
 
 /// e^x as an Mp (only when the result fits comfortably: |k| < 2000)
 pub fn exp(x: &Mp) -> Mp {
+    // far below the resolution: e^x < 2^-P for x < -P ln 2; callers never ask for e^x with x > 2^20
+    if *x < from_i64(-(1 << 20)) {
+        return Big::zero();
+    }
+    assert!(*x < from_i64(1 << 20), "mp::exp argument too large");
     let (m, k) = exp_parts(x);
     if k >= 0 {
         m.shl(k as u32)
